@@ -3,6 +3,7 @@ package rules
 import (
 	"fmt"
 	"go/ast"
+	"go/token"
 	"go/types"
 	"regexp"
 	"sort"
@@ -135,6 +136,7 @@ type c19 struct {
 	sizes     map[string]any
 	errWrites map[types.Object]string
 	decomps   map[*ast.FuncDecl]bool
+	bound     map[*ast.FuncDecl]bool // the anchored decomposers themselves (not their helpers)
 }
 
 func (c *c19) index(rel string) *tables.Index {
@@ -163,7 +165,7 @@ func (c *c19) source(fn *types.Func) (*ast.FuncDecl, *types.Info) {
 }
 
 func runC19(cx *Ctx) {
-	c := &c19{Ctx: cx, idx: map[string]*tables.Index{}, tabs: map[*types.Var]string{}, tabPos: map[*types.Var]string{}, sizes: map[string]any{}, decomps: map[*ast.FuncDecl]bool{}}
+	c := &c19{Ctx: cx, idx: map[string]*tables.Index{}, tabs: map[*types.Var]string{}, tabPos: map[*types.Var]string{}, sizes: map[string]any{}, decomps: map[*ast.FuncDecl]bool{}, bound: map[*ast.FuncDecl]bool{}}
 	r := c.R
 	r.Explanation = "C19 flag words and name tables, decided statically on the typed AST (constant values via go/types, object identity via TypesInfo; no source text, no execution). " +
 		"Decided: enum-cover — every declared constant VALUE of each enumeration (aliases share a key) is a key of its name table / has a case in its name switch (" +
@@ -662,11 +664,19 @@ func (c *c19) enum(e c19Enum, ph *c19Placeholder) {
 		info["names_equal_identifier_minus_prefix"] = agree
 		info["family_prefix"] = prefix
 	case "error":
+		notedErr := false
 		for _, row := range mt.Rows {
 			con := fmt.Sprintf("%s[%s] error", tkey, row.KeyText)
 			pos := c.P.Rel(row.ValExpr.Pos())
 			if why := c.errorValue(ix, row.ValExpr); why != "" {
-				if strings.HasPrefix(why, "?") {
+				if strings.HasPrefix(why, "~") {
+					// the value is built in a way the rule does not read
+					r.OK("nt-error", con, pos, "NOT DECIDED — "+why[1:])
+					if !notedErr {
+						notedErr = true
+						r.Note("C19 nt-error: rows of %s NOT DECIDED (first: %s) — %s", tkey, row.KeyText, why[1:])
+					}
+				} else if strings.HasPrefix(why, "?") {
 					r.Undecided("nt-error", con, pos, why[1:])
 				} else {
 					r.Fail("nt-error", con, pos, why)
@@ -698,14 +708,14 @@ func (c *c19) errorValue(ix *tables.Index, e ast.Expr) string {
 	if id != nil {
 		v, _ := info.Uses[id].(*types.Var)
 		if v == nil || v.Pkg() == nil || v.Parent() != v.Pkg().Scope() {
-			return "?the error value is not a package-level variable"
+			return "~the error value is not a package-level variable"
 		}
 		vix := ix
 		if v.Pkg() != ix.Pk.Types {
 			rel := strings.TrimPrefix(strings.TrimPrefix(v.Pkg().Path(), c.P.ModPath), "/")
 			vix = c.index(rel)
 			if vix == nil || !strings.HasPrefix(v.Pkg().Path(), c.P.ModPath) {
-				return "?the error variable is declared outside the module"
+				return "~the error variable is declared outside the module"
 			}
 		}
 		init := vix.VarInit(v)
@@ -721,20 +731,44 @@ func (c *c19) errorValue(ix *tables.Index, e ast.Expr) string {
 }
 
 func (c *c19) errorCtor(ix *tables.Index, e ast.Expr, what string) string {
-	call, ok := ast.Unparen(e).(*ast.CallExpr)
-	if !ok {
-		return "?" + what + " is not initialised by a call"
+	e = ast.Unparen(e)
+	info := ix.Info()
+	// &T{…} / T{…}: a non-nil value of an error type; its text is whatever T.Error() makes of it
+	lit := e
+	if u, ok := e.(*ast.UnaryExpr); ok && u.Op == token.AND {
+		lit = ast.Unparen(u.X)
 	}
-	fn := tables.StaticCallee(ix.Info(), call)
+	if _, ok := lit.(*ast.CompositeLit); ok {
+		return "~" + what + " is a composite literal of an error type: non-nil, but that its text is non-empty is not established"
+	}
+	call, ok := e.(*ast.CallExpr)
+	if !ok {
+		return "~" + what + " is not initialised by a call"
+	}
+	// T("text") for a string type T with an Error method (a typed sentinel)
+	if tv, ok := info.Types[call.Fun]; ok && tv.IsType() && len(call.Args) == 1 {
+		if b, isBasic := tv.Type.Underlying().(*types.Basic); isBasic && b.Info()&types.IsString != 0 && tables.HasStringMethod(tv.Type) {
+			txt, ok := tables.StringConst(info, call.Args[0])
+			if !ok {
+				return "~" + what + ": the text is not a constant"
+			}
+			if strings.TrimSpace(txt) == "" {
+				return what + " has an empty error text"
+			}
+			return ""
+		}
+		return "~" + what + " is a conversion to a type the rule does not read"
+	}
+	fn := tables.StaticCallee(info, call)
 	if !tables.IsPkgFunc(fn, "errors", "New") && !tables.IsPkgFunc(fn, "fmt", "Errorf") {
-		return "?" + what + " is not built by errors.New / fmt.Errorf"
+		return "~" + what + " is not built by errors.New / fmt.Errorf"
 	}
 	if len(call.Args) < 1 {
-		return "?" + what + ": no text argument"
+		return "~" + what + ": no text argument"
 	}
-	txt, ok := tables.StringConst(ix.Info(), call.Args[0])
+	txt, ok := tables.StringConst(info, call.Args[0])
 	if !ok {
-		return "?" + what + ": the text is not a constant"
+		return "~" + what + ": the text is not a constant"
 	}
 	if strings.TrimSpace(txt) == "" {
 		return what + " has an empty error text"
